@@ -1,6 +1,9 @@
 package zzverifctl
 
-import "net/http"
+import (
+	"net/http"
+	"sync"
+)
 
 type e6Endpoints struct{ Auth *string }
 
@@ -52,4 +55,15 @@ func (s *e6State) GetBad_E6Rgetter_append() []string {
 
 func (s *e6State) GetGood_E6Rgetter_pure() []string {
 	return append(append([]string{}, s.Audience...), s.ClientID)
+}
+
+var e6Cache sync.Map
+
+// the seeded C06 shape: a process-wide cache keyed too coarsely
+func Bad_E6Rglobal_cache(id string, v any) any {
+	if x, ok := e6Cache.Load(id); ok {
+		return x
+	}
+	e6Cache.Store(id, v)
+	return v
 }
